@@ -175,6 +175,58 @@ func vacuousAssertGuards(r *Report, p *Program, rule string) {
 				}
 			}
 		}
+		// polarity, both directions: a clash error is returned exactly for 'assertion failed ∧ operand non-nil'
+		nClash := 0
+		for _, b := range engine.BlocksInl(m) {
+			if len(b.Instrs) == 0 {
+				continue
+			}
+			iff, isIf := b.Instrs[len(b.Instrs)-1].(*ssa.If)
+			if !isIf {
+				continue
+			}
+			okl := engine.CondLit(iff.Cond, true)
+			ex, isE := okl.Cond.(*ssa.Extract)
+			if !isE || ex.Index != 1 {
+				continue
+			}
+			ta, isTA := ex.Tuple.(*ssa.TypeAssert)
+			if !isTA || !ta.CommaOk {
+				continue
+			}
+			opnd, isP := ta.X.(*ssa.Parameter)
+			if !isP || len(m.Params) < 4 || (opnd != m.Params[2] && opnd != m.Params[3]) {
+				continue // (the type switch on the destination is not a clash guard)
+			}
+			nClash++
+			fail, succ := b.Succs[1], b.Succs[0]
+			if !okl.Pos {
+				fail, succ = succ, fail
+			}
+			straightErr := func(from *ssa.BasicBlock, cutNonNil, cutNil bool) bool {
+				return engine.Query{Fn: m, From: []engine.Point{{B: from}},
+					CutEdge: func(bb *ssa.BasicBlock, i int, l *Lit) bool {
+						if l == nil {
+							return false
+						}
+						if v, isNil, isT := l.NilTest(); isT && v == ssa.Value(opnd) {
+							return isNil && cutNil || !isNil && cutNonNil
+						}
+						return true
+					},
+					Target: func(x ssa.Instruction) bool { rt, isR := x.(*ssa.Return); return isR && engine.ReturnsFreshError(rt) }}.Find() != nil
+			}
+			c := FK(m) + "[clash⇔failed∧non-nil:" + E(opnd) + "]"
+			switch {
+			case !straightErr(fail, false, true):
+				r.Check(rule, c, p.InstrPos(iff), false, "", "a "+E(opnd)+" of the wrong type (assertion failed, operand not nil) does not lead to the type-clash error")
+			case straightErr(fail, true, false):
+				r.Check(rule, c, p.InstrPos(iff), false, "", "an absent (nil) "+E(opnd)+" is reported as a type clash: every field that only the other sides have fails the merge")
+			default:
+				r.Check(rule, c, p.InstrPos(iff), true, "clash error exactly for failed ∧ non-nil", "")
+			}
+			_ = succ
+		}
 		r.Check(rule, FK(m)+"[clash-guards-on-operand]", p.Pos(m.Pos()), good >= 4, sf("%d operand nil tests guard the clash errors", good), sf("only %d of the 4 type-clash guards test the operand (lastApplied/desired): a desired value of the wrong type is dropped without error", good))
 	}
 	if n == 0 {
